@@ -87,6 +87,10 @@ def get_formula_fname(script_fname: str, environment: Optional[Environment]=None
 
 class SmtLibExecutionCache(object):
     """Execution environment for SMT2 script execution"""
+
+    # Marker used in the binding lists for names having a definition
+    _DEFINITION = object()
+
     def __init__(self, env: Environment):
         self.substitute = env.substituter.substitute
         self.keys: Dict[str, List[Union[str, Callable, PySMTType, FNode, _TypeDecl]]] = {}
@@ -104,6 +108,9 @@ class SmtLibExecutionCache(object):
 
     def define(self, name: str, parameters: List[FNode], expression: Union[PySMTType, FNode, PartialType, str]):
         self.definitions[name] = (parameters, expression)
+        # The definition takes part in the scoping of the name: it
+        # hides the previous bindings and can be hidden by later ones
+        self.bind(name, SmtLibExecutionCache._DEFINITION)
 
     def _define_adapter(self, formal_parameters: List[FNode], expression: FNode) -> Callable:
         def res(*actual_parameters):
@@ -114,7 +121,11 @@ class SmtLibExecutionCache(object):
 
     def get(self, name: str) -> Any:
         """Returns the last binding for 'name'"""
-        if name in self.definitions:
+        lst = self.keys.get(name)
+        if name in self.definitions and \
+           (not lst or lst[-1] is SmtLibExecutionCache._DEFINITION):
+            # (a later binding, e.g. a quantified variable, a let
+            #  variable or a formal parameter, hides the definition)
             (parameters, expression) = self.definitions[name]
             if len(parameters) == 0:
                 return expression
